@@ -16,7 +16,9 @@ EXPLANATION = (
     "basis-jet layout: stride numderiv+1 and offset D[k] in gen_pderiv, derivs= in the emitted init and the stacking in "
     "compute_values_derivs refer to the same count, with one x-last reversal; (R01.6) emitted signatures and call sites of combine / "
     "precompute_fields list the same argument groups under the same conditions; (R01.7) support intervals, offsets and slices are all "
-    "in Gauss-node units (cells x nqp).")
+    "in Gauss-node units (cells x nqp); (R01.9) the structural hash that common-subexpression extraction merges on separates "
+    "expressions that differ in an identifying attribute (injective flow into hash_key) or in the order of their operands "
+    "(no order-destroying combiner of the child hashes).")
 DOES_NOT_DECIDE = "equality of any matrix entry with the Gauss sum; that the C compiler accepts the module on every platform; numerical kernels beyond these rules"
 TECHNIQUE = "custom AST rules over generator, emitted-code templates and lowered generated Cython: table agreement, zero-initialisation provenance, guard dominance, sibling comparison of emitted protocol"
 
